@@ -32,6 +32,7 @@ Picks ==
     [] Family = "chain"   -> ChainPicks(N, MaxChain, Phases, Slice, Slices)
     [] Family = "acts"    -> ActsPicks(N, MaxChain > 0, Slice, Slices)
     [] Family = "cache"   -> CachePicks(N, MaxChain > 0, Slice, Slices)
+    [] Family = "dirs"    -> DirPicks(MaxChain > 0, Slice, Slices)
 ScenOf(pk) ==
   CASE Family = "flow"    -> FlowScen(pk)
     [] Family = "select"  -> SelectScen(pk)
@@ -39,6 +40,7 @@ ScenOf(pk) ==
     [] Family = "chain"   -> ChainScen(pk)
     [] Family = "acts"    -> ActsScen(pk)
     [] Family = "cache"   -> CacheScen(pk)
+    [] Family = "dirs"    -> DirScen(pk)
 
 HasRx(sc) ==
   \E ri \in 1..Len(sc.rules) : \E li \in 1..Len(sc.rules[ri].links) :
@@ -61,11 +63,14 @@ Orders == IF Family \in {"flow"} THEN {[k \in 1..Len(scen.req) |-> k]} ELSE Perm
 \* scen is a function of pick: leave it out of the fingerprint
 View == <<pick, st, p, i, rxMode, done>>
 
+\* the rule list the interpreter runs: the configuration after its exclusion/update directives
+Rules == ApplyDirs(scen.rules, scen.dirs)
+
 \* index of the next rule at or after j that is not filtered out by its phase (Len+1 if none)
 RECURSIVE NextIdx(_, _)
 NextIdx(j, ph) ==
-  IF j > Len(scen.rules) THEN j
-  ELSE IF scen.rules[j].phase = 0 \/ scen.rules[j].phase = ph THEN j ELSE NextIdx(j + 1, ph)
+  IF j > Len(Rules) THEN j
+  ELSE IF Rules[j].phase = 0 \/ Rules[j].phase = ph THEN j ELSE NextIdx(j + 1, ph)
 
 \* One iteration of the rule loop
 Step ==
@@ -73,9 +78,9 @@ Step ==
   /\ st.engine # "Off"
   /\ ~(st.intr # None /\ p # 5)
   /\ LET j == NextIdx(i, p) IN
-     /\ j <= Len(scen.rules)
+     /\ j <= Len(Rules)
      /\ \E ord \in Orders :
-          LET res == StepRule(st, scen.req, ord, rxMode, scen.rules[j], p) IN
+          LET res == StepRule(st, scen.req, ord, rxMode, Rules[j], p) IN
           /\ st' = res.st
           /\ lastBranch' = res.branch
      /\ i' = j + 1
@@ -86,7 +91,7 @@ PhaseEnd ==
   /\ ~done
   /\ \/ st.engine = "Off"
      \/ (st.intr # None /\ p # 5)
-     \/ NextIdx(i, p) > Len(scen.rules)
+     \/ NextIdx(i, p) > Len(Rules)
   /\ st' = IF st.engine = "Off" \/ (st.intr # None /\ p # 5) THEN st ELSE EndPhase(st, p)
   /\ IF p = 5 THEN done' = TRUE /\ p' = p /\ i' = i
               ELSE done' = FALSE /\ p' = p + 1 /\ i' = 1
@@ -115,10 +120,10 @@ DetectionOnlySilent ==
   scen.engine = "DetectionOnly" => (st.intr = None /\ st.allow = "unset")
 
 \* rules fire in configuration order within a phase and each at most once per phase (C01)
-RuleIdx(id) == CHOOSE j \in 1..Len(scen.rules) : scen.rules[j].id = id
+RuleIdx(id) == CHOOSE j \in 1..Len(Rules) : Rules[j].id = id
 FiredInOrder ==
   \A a, b \in 1..Len(st.fired) :
-     (a < b /\ scen.rules[RuleIdx(st.fired[a].id)].phase = scen.rules[RuleIdx(st.fired[b].id)].phase)
+     (a < b /\ Rules[RuleIdx(st.fired[a].id)].phase = Rules[RuleIdx(st.fired[b].id)].phase)
         => RuleIdx(st.fired[a].id) < RuleIdx(st.fired[b].id)
 
 \* every fired rule carries match data, every datum satisfied the link it belongs to
